@@ -12,6 +12,11 @@ values = None | ['s', seed] (count values expanded from the seed on both sides) 
 literal = 1 (reads only): the AddressRange is the struct literal `AddressRange { start, count }`
 (public fields, harness kind suffix `r`) instead of AddressRange::try_from - the library must
 validate it itself (finding F10, repaired by 3d39d18).
+An optional 8th field `style` selects the submit path: 0 = async Channel, 1 = CallbackSession
+(deprecated callback API), 2 = FfiChannel (try_send, used by the C bindings); harness framing
+suffix `c` / `x`. All three must put the same bytes on the wire (C03_paths_agree); a rejected call
+is signalled as Model/ClientPaths.v says (`<err>/-`: FfiChannel returned the error and the callback
+was never invoked; `<err>/Shutdown`: returned and the dropped promise called back with Shutdown).
 """
 import vlib
 
@@ -31,38 +36,44 @@ def norm(c):
     c = tuple(c)
     if len(c) == 6:
         c = c + (0,)
-    f, k, u, s, n, v, lit = c
+    if len(c) == 7:
+        c = c + (0,)
+    f, k, u, s, n, v, lit, style = c
     if v is not None:
         v = (v[0], tuple(v[1]) if v[0] == 'l' else int(v[1]))
         if v[0] == 'l':
             n = len(v[1])
-    return (f, int(k), int(u), int(s), int(n), v, int(bool(lit)) if int(k) in READS else 0)
+    return (f, int(k), int(u), int(s), int(n), v, int(bool(lit)) if int(k) in READS else 0, int(style))
 
 
 def jcase(c):
-    return [c[0], c[1], c[2], c[3], c[4], (list(c[5]) if c[5] else None), c[6]]
+    return [c[0], c[1], c[2], c[3], c[4], (list(c[5]) if c[5] else None), c[6], c[7]]
+
+
+STYLE_SUFFIX = {0: '', 1: 'c', 2: 'x'}
+STYLE_NAME = {0: 'channel', 1: 'callback', 2: 'ffi'}
 
 
 def line(c):
-    f, k, u, s, n, v, lit = c
+    f, k, u, s, n, v, lit, style = c
     if v is None:
         vs = '-'
     elif v[0] == 's':
         vs = f's{v[1]}'
     else:
         vs = 'l' + ','.join(str(x) for x in v[1])
-    return f'{f} {k}{"r" if lit else ""} {u} {s} {n} {vs}'
+    return f'{f}{STYLE_SUFFIX[style]} {k}{"r" if lit else ""} {u} {s} {n} {vs}'
 
 
 def to_coq(c, tx):
-    f, k, u, s, n, v, lit = c
+    f, k, u, s, n, v, lit, style = c
     if v is None:
         vs = 'Seed 0 0'
     elif v[0] == 's':
         vs = f'Seed {v[1]} {n}'
     else:
         vs = 'Lst ' + vlib.coq_N_list(v[1])
-    return f'({vlib.coq_bool(f == "T")}, {k}, {tx}, {u}, {s}, {n}, {vs})'
+    return f'({vlib.coq_bool(f == "T")}, {vlib.coq_bool(lit)}, {style}, {k}, {tx}, {u}, {s}, {n}, {vs})'
 
 
 def starts_for(r, count):
@@ -84,6 +95,14 @@ def gen_cases(ctx, quick):
               # F10: unvalidated struct literals
               ('T', 1, 1, 0, 0, None, 1), ('T', 3, 1, 65535, 10, None, 1), ('R', 2, 1, 65535, 2, None, 1), ('R', 4, 1, 1, 65535, None, 1),
               ('T', 1, 1, 0, 2001, None, 1), ('T', 3, 1, 65411, 125, None, 1), ('R', 1, 1, 63536, 2000, None, 1)]
+    # every rejection signal of the callback / FfiChannel paths (Model/ClientPaths.v), literal and try_from-accepted ranges
+    for f in 'TR':
+        for k in READS:
+            for style in (1, 2):
+                for (s, n, lit) in [(0, 0, 1), (65535, 0, 1), (65535, 2, 1), (65530, 100, 1), (0, LIMIT[k] + 1, 0), (7, LIMIT[k] + 1, 1), (0, 65535, 0)]:
+                    cases.append((f, k, 1, s, n, None, lit, style))
+                cases.append((f, k, 1, 0, LIMIT[k], None, 0, style))
+                cases.append((f, k, 1, 65536 - LIMIT[k], LIMIT[k], None, 1, style))
     # boundary quantities x start edges x kinds x framings
     for f in 'TR':
         for k in READS:
@@ -156,21 +175,37 @@ def gen_cases(ctx, quick):
     seen, out = set(), []
     for c in cases:
         c = norm(c)
+        if c[7] == 0 and len(out) >= 170:          # submit path: half Channel, a quarter each CallbackSession / FfiChannel (corpus: Channel)
+            c = c[:7] + (r.choice([0, 0, 1, 2]),)
         if c not in seen:
             seen.add(c)
             out.append(c)
     return out
 
 
+def reaches_task(c):
+    """python mirror of Spec reaches_task (+ the try_from the harness applies to non-literal read ranges): the call is queued and
+    the task takes a transaction id for it"""
+    f, k, u, s, n, v, lit, style = c
+    if k in (5, 6):
+        return True
+    if n == 0 or n > 65535 or s + n > 65536:
+        return False
+    return k in (15, 16) or n <= LIMIT[k]
+
+
 def evaluate(ctx, cases):
-    """-> list of (impl, model, spec, tx) per case; one harness process (the MBAP tx id advances)"""
+    """-> list of (impl, model, spec, tx) per case; one harness process: the cases of one framing form ONE session, so the
+    transaction id handed to model and Spec is the number of earlier cases of that framing that reach the task (C03_session_wire)"""
     ctx.log(f'{len(cases)} cases: running the implementation')
     impl = ctx.harness('cenc', [line(c) for c in cases])
     ctx.log('evaluating model and Spec in Coq')
     txs = []
+    count = {'T': 0, 'R': 0}
     for c, i in zip(cases, impl):
-        wire = i.split(' ')[-1]
-        txs.append(int(wire[:4], 16) if c[0] == 'T' and len(wire) >= 4 and wire != '-' and '+' not in wire else 0)
+        txs.append(count[c[0]] % 65536 if c[0] == 'T' else 0)
+        if reaches_task(c):
+            count[c[0]] += 1
     # spread the expensive cases (long value vectors) evenly over the coqc shards
     order = list(range(len(cases)))
     order.sort(key=lambda i: (i * 7919) % 104729)
@@ -191,11 +226,11 @@ def spec_ok(impl, spec):
     if spec.startswith('SENT '):
         return impl == spec
     res, wire = impl.split(' ', 1)
-    return wire == '-' and res not in ('SENT', 'OK?', 'PANIC', 'BADLINE')
+    return wire == '-' and res.split('/')[0] not in ('SENT', 'OK?', 'PANIC', 'BADLINE', 'LOST', 'HUNG')
 
 
 def why_outside(c):
-    f, k, u, s, n, v, lit = c
+    f, k, u, s, n, v, lit, style = c
     if k in (5, 6):
         return 'in-limits'
     if n == 0:
@@ -210,7 +245,7 @@ def why_outside(c):
 
 
 def key_of(c, impl, spec):
-    fr = ('range-literal.' if c[6] else '') + ('tcp' if c[0] == 'T' else 'rtu')
+    fr = ('range-literal.' if c[6] else '') + ('tcp' if c[0] == 'T' else 'rtu') + ('.' + STYLE_NAME[c[7]] if c[7] else '')
     w = why_outside(c)
     if spec == 'REJECT':
         return f'client.{KIND_NAME[c[1]]}.{w}.{fr}'
@@ -221,9 +256,11 @@ def key_of(c, impl, spec):
 
 def shrink_candidates(c):
     for x in shrink_candidates6(c[:6]):
-        yield norm(tuple(x) + (c[6],))
+        yield norm(tuple(x) + (c[6], c[7]))
     if c[6]:
-        yield norm(tuple(c[:6]) + (0,))
+        yield norm(tuple(c[:6]) + (0, c[7]))
+    if c[7]:
+        yield norm(tuple(c[:7]) + (0,))
 
 
 def shrink_candidates6(c):
@@ -273,6 +310,56 @@ def evaluate_each(ctx, cs):
     return [(i, b.split('|')[0], b.split('|')[0] if b.split('|')[1] == '=' else b.split('|')[1], tx) for i, b, tx in zip(impl, both, txs)]
 
 
+def session_family(ctx, nseq, length, given=None):
+    """whole sessions: a sequence of calls through any mix of the three APIs in a fresh process; the concatenated wire log vs
+    Model session_wire and Spec ref_session_wire evaluated in Coq on the whole sequence (C03_session_wire)"""
+    r = ctx.rng
+    seqs = [[norm(c) for c in seq] for seq in given] if given else []
+    for q in range(0 if given else nseq):
+        f = 'T' if q % 4 != 3 else 'R'
+        seq = []
+        for _ in range(length):
+            k = r.choice([1, 2, 3, 4, 5, 6, 15, 15, 16, 16])
+            u = r.choice(UNITS)
+            style = r.choice([0, 0, 1, 2])
+            if k in (5, 6):
+                seq.append(norm((f, k, u, r.randrange(65536), r.randrange(2) if k == 5 else r.randrange(65536), None, 0, style)))
+                continue
+            lim = LIMIT[k]
+            n = r.choice([0, 1, 2, 9, lim - 1, lim, lim + 1, lim + 1, r.randrange(0, 40), r.randrange(0, 300)])
+            fit = min(65535, max(0, 65536 - n))
+            s0 = r.choice([0, r.randrange(0, fit + 1), fit, min(65535, fit + 1)])
+            seq.append(norm((f, k, u, s0, n, ('s', r.choice([0, 1, r.randrange(2, 2**31)])) if k in (15, 16) else None, 1, style)))
+        seqs.append(seq)
+    wires = []
+    for seq in seqs:
+        out = ctx.harness('cenc', [line(c) for c in seq])            # fresh process: transaction ids start at 0
+        wires.append('+'.join(o.split(' ')[1] for o in out if o.split(' ')[1] != '-'))
+
+    def coq_call(c):
+        f, k, u, s0, n, v, lit, style = c
+        vs = 'Seed 0 0' if v is None else f'Seed {v[1]} {n}'
+        return f'({style}, {k}, {u}, {s0}, {n}, {vs})'
+    both = ctx.coq_eval(REQS, 'run_session_case', [f'({vlib.coq_bool(seq[0][0] == "T")}, [{"; ".join(coq_call(c) for c in seq)}])' for seq in seqs],
+                        case_type='session_case', per_shard=2)
+    bad = 0
+    for seq, w, b in zip(seqs, wires, both):
+        model, spec = b.split('|')
+        spec = model if spec == '=' else spec
+        if w != spec or w != model:
+            bad += 1
+            if bad == 1:
+                # first differing frame
+                fw, fs = w.split('+'), spec.split('+')
+                ix = next((i for i in range(min(len(fw), len(fs))) if fw[i] != fs[i]), min(len(fw), len(fs)))
+                ctx.violation('client.session.wire-log-differs-from-the-spec' if w != spec else 'model-differs-from-impl',
+                              f'session of {len(seq)} calls over {"TCP" if seq[0][0] == "T" else "RTU"}: frame #{ix} on the wire is `{(fw + ["(none)"])[ix][:60]}` '
+                              f'but ref_session_wire says `{(fs + ["(none)"])[ix][:60]}` ({len(fw)} vs {len(fs)} frames)',
+                              {'session': [jcase(c) for c in seq], 'impl': w[:2000], 'spec': spec[:2000]}, no_failing_input=(w == spec))
+    ctx.oblige('correspondence:session-wire-log-vs-model-and-spec', bad == 0, f'{bad} of {len(seqs)} sessions')
+    return sum(len(x) for x in seqs)
+
+
 def run(ctx):
     ctx.translate(['Consts.v', 'ClientTables.v'])
     models_ok = ctx.build_models(REQS + ['Spec.ClientCodecSpec'])
@@ -282,6 +369,10 @@ def run(ctx):
     if not ctx.build_harness() or not models_ok:
         return
     quick = ctx.quick()
+    if ctx.replay and 'session' in ctx.replay:
+        n = session_family(ctx, 0, 0, given=[ctx.replay['session']])
+        ctx.coverage.update({'evaluations': n, 'distinct_nontrivial': n, 'rule': 'replay of one session', 'samples': []})
+        return
     if ctx.replay and 'cases' in ctx.replay:
         cases = [norm(c) for c in ctx.replay['cases']]
         results = evaluate_each(ctx, cases)
@@ -306,6 +397,7 @@ def run(ctx):
         bump(f'kind:{KIND_NAME[c[1]]}')
         bump(f'framing:{fr}')
         bump(f'result:{res}')
+        bump(f'style:{STYLE_NAME[c[7]]}')
         bump(f'domain:{why_outside(c)}')
         if c[1] in READS:
             bump('range:' + ('struct-literal' if c[6] else 'try_from') + ('.invalid' if why_outside(c) in ('count=0', 'address-overflow') else '.valid'))
@@ -316,14 +408,14 @@ def run(ctx):
         if not (ctx.replay and 'cases' in ctx.replay):
             if res == 'PANIC':
                 expect_tx[c[0]] = 0
-            elif res not in NO_TX:
+            elif res.split('/')[0] not in NO_TX:
                 if res == 'SENT' and c[0] == 'T' and tx != expect_tx['T']:
                     tx_bad += 1
                 expect_tx[c[0]] = (expect_tx[c[0]] + 1) % 65536
         if not spec_ok(impl, spec):
             n_spec += 1
             key = key_of(c, impl, spec)
-            cls = (why_outside(c), c[6], spec == 'REJECT')
+            cls = (why_outside(c), c[6], c[7], spec == 'REJECT')
             if key not in reported and len(reported) < 10 and per_class.get(cls, 0) < 2:
                 reported.add(key)
                 per_class[cls] = per_class.get(cls, 0) + 1
@@ -334,7 +426,7 @@ def run(ctx):
                 else:
                     si, sm, ss = impl, model, spec
                 key = key_of(small, si, ss)
-                what = (f'{KIND_NAME[small[1]]}{" (AddressRange struct literal)" if small[6] else ""} unit={small[2]} start={small[3]} count/value={small[4]} values={small[5]} over {"TCP" if small[0] == "T" else "RTU"}: '
+                what = (f'{KIND_NAME[small[1]]}{" (AddressRange struct literal)" if small[6] else ""} via {STYLE_NAME[small[7]]} API unit={small[2]} start={small[3]} count/value={small[4]} values={small[5]} over {"TCP" if small[0] == "T" else "RTU"}: '
                         f'implementation `{si[:90]}` but the protocol Spec says `{ss[:90]}` ({why_outside(small)})')
                 ctx.violation(key, what, {'cases': [jcase(small)], 'impl': si, 'spec': ss, 'model': sm, 'original_case': jcase(c)})
         elif impl != model:
@@ -354,17 +446,23 @@ def run(ctx):
     if not ctx.replay:
         need = ['result:SENT', 'result:CountOfZero', 'result:AddressOverflow', 'result:CountTooLargeForType', 'result:CountTooBigForU16',
                 'result:CountTooBigForType'] + [f'sent:{KIND_NAME[k]}.{fr}' for k in KIND_NAME for fr in ('tcp', 'rtu')]
+        need += ['style:channel', 'style:callback', 'style:ffi', 'result:CountOfZero/-', 'result:AddressOverflow/-', 'result:CountTooLargeForType/-',
+                 'result:CountOfZero/Shutdown', 'result:AddressOverflow/Shutdown', 'result:CountTooLargeForType/Shutdown']
         need += ['range:struct-literal.invalid', 'range:struct-literal.valid', 'range:try_from.invalid', 'range:try_from.valid']
         missing = [n for n in need if classes.get(n, 0) < 3]
         ctx.oblige('generator-reaches-expected-classes', not missing and max_len['T'] == 259 and max_len['R'] == 255,
                    f'missing={missing} max frame lengths={max_len}')
+    n_sess = 0
+    if not ctx.replay:
+        n_sess = session_family(ctx, 8 if quick else 64, 60 if quick else 300)
+        classes['session-calls'] = n_sess
     classes['max_frame_len_tcp'] = max_len['T']
     classes['max_frame_len_rtu'] = max_len['R']
     ctx.coverage.update({
-        'evaluations': len(cases),
+        'evaluations': len(cases) + n_sess,
         'distinct_nontrivial': len({c for c in cases if c[1] in (5, 6) or c[4] > 0}),
-        'rule': 'cases (framing, kind, unit, start, count|value, values, range-is-struct-literal) from a seeded PRNG: F1/F10 corpus, boundary quantities x start edges x 8 kinds x 2 framings, explicit value lists, random mixture'
-                + ('' if quick else ', exhaustive count sweep 0..2100') + '; non-trivial = non-empty request; distinct by value. Each case runs the real Channel API + ClientLoop over the in-memory wire and is compared with model and Spec evaluated in Coq',
+        'rule': 'cases (framing, kind, unit, start, count|value, values, range-is-struct-literal, submit API: Channel / CallbackSession / FfiChannel) from a seeded PRNG: F1/F10 corpus, boundary quantities x start edges x 8 kinds x 2 framings, explicit value lists, random mixture'
+                + ('' if quick else ', exhaustive count sweep 0..2100') + '; non-trivial = non-empty request; distinct by value. Transaction ids given to model and Spec are those of the Spec (number of earlier calls of the session that reach the task), not the observed ones; plus whole-session wire logs (mixed APIs) vs session_wire / ref_session_wire. Each case runs the real Channel API + ClientLoop over the in-memory wire and is compared with model and Spec evaluated in Coq',
         'samples': [[line(c), r[0][:80]] for c, r in list(zip(cases, results))[:8]],
         'input_classes': classes,
         'exhaustive': False,
